@@ -93,6 +93,8 @@ type Options struct {
 	Omit      []string
 	// NoResolvers leaves Resolve nil (DefaultResolveFn), for introspection-only schemas.
 	NoResolvers bool
+	// Resolve overrides the resolver of "Type.field".
+	Resolve map[string]graphql.FieldResolveFn
 	Extensions  []graphql.Extension
 }
 
@@ -324,6 +326,9 @@ func (b *Built) fields(td *model.TypeDef, opt Options, subRoot bool) graphql.Fie
 		f := &graphql.Field{Type: b.OutType(fd.Type), Args: args, Description: fd.Desc, DeprecationReason: fd.Deprecation}
 		if td.Kind == model.KObject && !opt.NoResolvers {
 			f.Resolve = b.resolver(td.Name, fd)
+			if r, ok := opt.Resolve[td.Name+"."+fd.Name]; ok {
+				f.Resolve = r
+			}
 			if subRoot && opt.Subscribe != nil {
 				f.Subscribe = opt.Subscribe(td.Name, fd.Name)
 			}
